@@ -188,6 +188,10 @@ def run(prog: Program, col: Collector, tier: str, refs: Optional[Refs] = None, c
     col.rule("R06.13", "the Number and the Tensor branch of an eager_subs compute the same data and declare the same dtype", floor=2)
     c04._ground_index_siblings(prog, col, refs, cat)
 
+    # ---------------------------------------------------------------- R06.14
+    col.rule("R06.14", "a term's declared inputs draw on the inputs of every funsor-valued constructor argument", floor=30)
+    _inputs_cover_arguments(prog, col, refs, cat)
+
     # ---------------------------------------------------------------- R06.5
     col.rule("R06.5", "dimension parameters are normalised modulo the rank in every branch before use as indices", floor=2)
     _axis_normalisation(prog, col, refs, cat)
@@ -885,3 +889,63 @@ def _slice_lengths(prog: Program, col: Collector, refs: Refs, cat: Catalogue):
                   (f"for start={bad[0]}, stop={bad[1]}, step={bad[2]} the expression gives {bad[3]} but the slice has {bad[4]} element(s): the declared shape / size "
                    "differs from what the slice returns") if bad else "", f.loc(st))
     col.cur.analysed["slice_length_sites"] = n
+
+
+# ---------------------------------------------------------------------- R06.14
+def _inputs_cover_arguments(prog: Program, col: Collector, refs: Refs, cat: Catalogue):
+    """A term depends on every input of every subterm it holds (minus the names it binds).  In each term constructor every name that
+    is asserted to be a Funsor - a parameter, or a component unpacked from a tuple parameter - must have its `.inputs` (or
+    `.input_vars`) read somewhere in the constructor, or be a binder (its `.name` is what is used).  A subterm whose inputs never
+    reach the declared inputs makes the term claim independence of variables its value depends on: substituting them is a no-op."""
+    funsor_like = set(cat.term_classes) | {"funsor.terms.Funsor"}
+    n = 0
+    for t in sorted(cat.term_classes.values(), key=lambda x: x.fq):
+        init = t.cls.methods.get("__init__")
+        if init is None or t.fq == "funsor.terms.Funsor":
+            continue
+        asserted = {}
+        for a in ast.walk(init.node):
+            if isinstance(a, ast.Assert):
+                for c in ast.walk(a.test):
+                    if isinstance(c, ast.Call) and isinstance(c.func, ast.Name) and c.func.id == "isinstance" and len(c.args) == 2 and isinstance(c.args[0], ast.Name):
+                        elts = c.args[1].elts if isinstance(c.args[1], ast.Tuple) else [c.args[1]]
+                        if elts and all((refs.resolve(e) if isinstance(e, (ast.Name, ast.Attribute)) else None) in funsor_like for e in elts):
+                            # not inside a generator over something else (all(isinstance(v, Funsor) for v in xs) names a comprehension variable)
+                            asserted.setdefault(c.args[0].id, a)
+        # loops / comprehensions whose loop variable has its inputs read: the iterated collection (a name, or the names in a tuple display) contributes
+        contributing = set()
+        for x in ast.walk(init.node):
+            gens = []
+            if isinstance(x, ast.For):
+                gens = [(x.target, x.iter, x)]
+            elif isinstance(x, (ast.GeneratorExp, ast.ListComp, ast.SetComp, ast.DictComp)):
+                gens = [(g.target, g.iter, x) for g in x.generators]
+            for tg, it, scope in gens:
+                tnames = {y.id for y in ast.walk(tg) if isinstance(y, ast.Name)}
+                if any(isinstance(y, ast.Attribute) and y.attr in ("inputs", "input_vars") and isinstance(y.value, ast.Name) and y.value.id in tnames for y in ast.walk(scope)):
+                    contributing |= {y.id for y in ast.walk(it) if isinstance(y, ast.Name)}
+        # a name asserted inside `all(isinstance(v, Funsor) for v in XS)` stands for the elements of XS
+        comp_var_of = {}
+        for a in ast.walk(init.node):
+            if isinstance(a, (ast.GeneratorExp, ast.ListComp)):
+                for g in a.generators:
+                    if isinstance(g.target, ast.Name) and isinstance(g.iter, ast.Name):
+                        comp_var_of[g.target.id] = g.iter.id
+        for name, where in sorted(asserted.items()):
+            reads_inputs = any(isinstance(x, ast.Attribute) and x.attr in ("inputs", "input_vars") and isinstance(x.value, ast.Name) and x.value.id == name for x in ast.walk(init.node))
+            reads_inputs = reads_inputs or name in contributing or comp_var_of.get(name) in contributing
+            is_binder = any(isinstance(x, ast.Attribute) and x.attr == "name" and isinstance(x.value, ast.Name) and x.value.id == name for x in ast.walk(init.node))
+            passed_on = any(isinstance(c, ast.Call) and any(isinstance(y, ast.Name) and y.id == name for y in c.args) and not (isinstance(c.func, ast.Name) and c.func.id in ("isinstance", "type", "len", "repr", "str", "id"))
+                            for c in ast.walk(init.node))
+            n += 1
+            construct = f"{init.fq}::{name}"
+            if reads_inputs:
+                col.ok(construct, f"`{name}.inputs` contributes to the declared inputs", init.loc(where), nontrivial=False)
+            elif is_binder:
+                col.ok(construct, f"`{name}` is used as a binder (its name, not its inputs)", init.loc(where), nontrivial=False)
+            elif passed_on:
+                col.ok(construct, f"`{name}` is handed to a helper that computes the inputs", init.loc(where), nontrivial=False)
+            else:
+                col.violation(construct, f"`{name}` is asserted to be a funsor and is stored in the term, but `{name}.inputs` is never read in the constructor: the term declares "
+                              f"itself independent of the inputs of `{name}` although its value depends on them (substituting such an input is silently ignored)", init.loc(where))
+    col.cur.analysed["funsor_arguments_checked"] = n
